@@ -23,7 +23,7 @@ from redress import CircuitBreaker, ErrorClass  # noqa: E402
 JOBS = {"quick": 4, "thorough": 16}
 ENTRIES = ["policy.call", "policy.execute", "policy.ctx", "apolicy.call", "apolicy.execute", "apolicy.ctx"]
 CB_NAMES = ["classifier", "rclassifier", "strategy", "abort_if", "handler", "sleeper", "astart", "aend"]
-OP_SPECIALS = ["abort", "cancel", "kbd", "sysexit", "genexit", "base", "nested_open", "nested_exh"]
+OP_SPECIALS = ["abort", "cancel", "kbd", "sysexit", "genexit", "base", "nested_open", "nested_exh", "cancel_exc", "sysexit_exc"]
 THROW_KINDS = ["cancel", "kbd", "sysexit", "close"]
 
 
@@ -215,6 +215,7 @@ def enumerate_faults(ctx, base, entry, rng, tier, stats):
         for k in ("kbd", "sysexit", "cancel"):
             plans.append({"kind": "breaker", "op": opn, "exc": k})
     if entry.startswith("a"):
+        plans.append({"kind": "throw", "at": -1, "exc": "never-started", "call": 0})
         for sp in range(clean.suspensions):
             for k in THROW_KINDS:
                 plans.append({"kind": "throw", "at": sp, "exc": k, "call": 0})
